@@ -36,6 +36,7 @@ RULE = ("stream 1: rotate_xyz on 3xN dyadic objects (N=0..6) with special and ra
         "1..3 template types per molecule with 1..7 atoms (single atom, collinear, planar, chiral), template "
         "key order shuffled against atom order, 0..n bonded neighbours over trees and rings of residues with "
         "1..2 atom-level bonds per residue edge, neighbours built before / after / never (backmap=False), "
+        "pairs of residue nodes sharing one resid (different residue names, with equal or foreign atom names), "
         "fudge_coords in {0.4, 1, 0.25, 0.7, 2, 1.5}; stream 3 (thorough and a few quick): templates from the real "
         "GenerateTemplates (with virtual sites) fed to Backmap.  A case is non-trivial when a backmapped "
         "residue has >= 2 atoms; distinct = (stream, generator seed).")
@@ -127,6 +128,25 @@ def gen_molecule_spec(rng, thorough):
         for _ in range(rng.choice([1, 1, 2])):
             bonds.append([a, rng.randrange(len(residues[a]["atom_names"])),
                           b, rng.randrange(len(residues[b]["atom_names"]))])
+    # two residue nodes may carry the same resid (the residue graph is keyed on (resid, resname): several
+    # chains in one moleculetype, cofactors, restarted numbering).  Such a pair is kept free of bonded
+    # neighbours here, because orient_template tracks built neighbours by resid.
+    if ntypes >= 2 and nres >= 2 and rng.random() < 0.3:
+        pairs = [(a, b) for a in range(nres) for b in range(a + 1, nres) if residues[a]["type"] != residues[b]["type"]]
+        if pairs:
+            a, b = rng.choice(pairs)
+            residues[b]["resid"] = residues[a]["resid"]
+            bonds = [bd for bd in bonds if bd[0] not in (a, b) and bd[2] not in (a, b)]
+            if rng.random() < 0.6:
+                # same atom names in both (think BB/SC1): each one's names are keys of the other's template
+                ta, tb = types[residues[a]["type"]], types[residues[b]["type"]]
+                if len(ta["names"]) == len(tb["names"]):
+                    ren = dict(zip(tb["names"], ta["names"]))
+                    tb["template"] = [[ren[k], v] for k, v in tb["template"]]
+                    tb["names"] = [ren[k] for k in tb["names"]]
+                    for res in residues:
+                        if types[res["type"]] is tb:
+                            res["atom_names"] = [ren[k] for k in res["atom_names"]]
     return dict(types=types, residues=residues, bonds=bonds, fudge=rng.choice(FUDGES),
                 via=rng.choice(["run_molecule", "run_system"]))
 
@@ -158,9 +178,9 @@ def build_meta(spec):
     graph = make_residue_graph(molecule, attrs=("resid", "resname"))
     meta = MetaMolecule(graph)
     meta.molecule = molecule
-    by_resid = {meta.nodes[n]["resid"]: n for n in meta.nodes}
+    by_resid = {(meta.nodes[n]["resid"], meta.nodes[n]["resname"]): n for n in meta.nodes}
     for res in spec["residues"]:
-        node = by_resid[res["resid"]]
+        node = by_resid[(res["resid"], "R%d" % res["type"])]
         nx.set_node_attributes(meta, {node: {"resname": "R%d" % res["type"],
                                              "template": spec["types"][res["type"]]["key"],
                                              "position": np.array(res["pos"], dtype=float),
@@ -339,7 +359,8 @@ def backmap_case(ctx, stream, replay, meta, fudge, via, np_seed):
                              residues=nres, fudge=fudge),
                  stream=stream, residues=nres if nres <= 3 else "4+", max_neighbours=maxdeg if maxdeg <= 2 else "3+",
                  max_atoms=kmax if kmax <= 4 else "5+", fudge=fudge, via=via,
-                 unmapped=sum(1 for r in res_info if not r["backmap"]) > 0)
+                 unmapped=sum(1 for r in res_info if not r["backmap"]) > 0,
+                 shared_resid=len({r["resid"] for r in res_info}) < nres)
     return reqs, judge
 
 
@@ -380,7 +401,7 @@ def rotate_case(ctx, replay):
 def gen_rotate(ctx):
     rng = ctx.rng
     out = []
-    for n in range(ctx.budget(40, 300)):
+    for n in range(ctx.budget(40, 600)):
         ncol = rng.choice([0, 1, 1, 2, 3, 4, 6]) if n > 2 else n
         obj = [[dy(rng, -4, 4) for _ in range(ncol)] for _ in range(3)]
         if rng.random() < 0.4:
@@ -427,7 +448,7 @@ def gen_backmap(ctx):
     import random
     rng = ctx.rng
     out = []
-    for _ in range(ctx.budget(160, 2500)):
+    for _ in range(ctx.budget(160, 6000)):
         seed = rng.randint(0, 10 ** 9)
         out.append(dict(stream="backmap", spec=gen_molecule_spec(random.Random(seed), ctx.thorough),
                         np_seed=seed % 100000))
@@ -439,7 +460,7 @@ def gen_pipeline(ctx):
     if not os.path.exists(os.path.join(common.HERE, "c15.py")):
         return []
     return [dict(stream="pipeline", seed=rng.randint(0, 10 ** 9), fudge=rng.choice(FUDGES))
-            for _ in range(ctx.budget(6, 120))]
+            for _ in range(ctx.budget(6, 300))]
 
 
 def corpus_cases():
@@ -467,6 +488,44 @@ def run_cases(ctx, replays):
         judge(answers[lo:hi])
 
 
+def shrink(ctx):
+    """minimise the first failing backmap input of every shape: one residue of the molecule alone (no bonds);
+    the smaller input replaces the reported one only if it fails with the same shape"""
+    import copy
+    first = {}
+    for fail in ctx.failures:
+        first.setdefault(fail["shape"], fail)
+    cands = []
+    for shape, fail in first.items():
+        rep = fail["replay"]
+        if not isinstance(rep, dict) or rep.get("stream") != "backmap" or len(rep["spec"]["residues"]) < 2:
+            continue
+        for idx, res in enumerate(rep["spec"]["residues"]):
+            for keep in ([idx], [j for j, other in enumerate(rep["spec"]["residues"])
+                                 if j == idx or other["resid"] == res["resid"]]):
+                small = copy.deepcopy(rep["spec"])
+                small["residues"] = [copy.deepcopy(rep["spec"]["residues"][j]) for j in keep]
+                small["bonds"] = []
+                cand = dict(stream="backmap", spec=small, np_seed=rep["np_seed"])
+                if cand not in cands:
+                    cands.append(cand)
+    if not cands:
+        return
+    tmp = common.Ctx(ctx.pid, ctx.tier, ctx.seed)
+    tmp.driver = ctx.driver
+    try:
+        run_cases(tmp, cands[:60])
+    except Exception:  # pylint: disable=broad-except
+        return
+    for shape, fail in first.items():
+        smaller = [f for f in tmp.failures if f["shape"] == shape]
+        if smaller:
+            best = min(smaller, key=lambda f: len(json.dumps(f["replay"])))
+            original = len(fail["replay"]["spec"]["residues"])
+            fail["replay"] = best["replay"]
+            fail["what"] = best["what"] + "  [minimised from a %d-residue molecule]" % original
+
+
 def run(ctx):
     ctx.extra["rule"] = RULE
     ctx.extra["trusted"] = [
@@ -485,6 +544,8 @@ def run(ctx):
                                 "the coordinates the real Backmap wrote (1e-6)")
     replays = corpus_cases() + gen_rotate(ctx) + gen_backmap(ctx) + gen_pipeline(ctx)
     run_cases(ctx, replays)
+    if ctx.failures:
+        shrink(ctx)
 
 
 def replay(ctx, data):
